@@ -453,7 +453,7 @@ def generator_unit(chk, tier):
 
 def run(tier, seed, replay=None):
     chk = Check("C08", tier, seed)
-    chk.build_proofs(["Model/Store.vo", "Lib/Cmp.vo", "Refuted/StoreOld.vo"])
+    chk.build_proofs(["Model/Store.vo", "Lib/Cmp.vo", "Refuted/StoreOld.vo", "Refuted/StagingOld.vo"])
     su.preimport()
     chk.assumptions = [
         "one cond process at a time per project; task processes write only inside their own COND_OUT",
@@ -461,6 +461,11 @@ def run(tier, seed, replay=None):
         "sqlite MAX(timestamp), PRIMARY KEY and transactions behave as documented",
     ]
 
+    if replay is not None and replay.get("input", {}).get("part") == "staging-collision":
+        import archive_util as au  # pylint: disable=import-outside-toplevel
+
+        au.staging_collision(chk, "C08")
+        return chk.finish()
     if replay is not None:
         if "history" not in replay.get("input", {}):
             print("replay: (last, now) = %r -- re-running the generator comparison" % (replay.get("input"),))
@@ -482,6 +487,9 @@ def run(tier, seed, replay=None):
         return chk.finish()
 
     n_unit = generator_unit(chk, tier)
+    import archive_util as au  # pylint: disable=import-outside-toplevel
+
+    au.staging_collision(chk, "C08")     # D23: restore vs. a package named like its staging directory
     hists = corpus()
     n_random = 40 if tier == "quick" else 900
     for i in range(n_random):
